@@ -337,6 +337,9 @@ const (
 	vkOK = iota
 	vkErr
 	vkAmbig
+	// vkNoKey: an error, or no keys at all - never a key (a bytes field is not a
+	// string value; seen as a repeated field its elements are not strings either)
+	vkNoKey
 )
 
 func vkTitle(seg string) string {
@@ -440,7 +443,7 @@ func vkRef(n *vkNode, path []string, i int) ([]string, int) {
 		return keys, vkOK
 	}
 	if f.t.kind == vkBytes {
-		return nil, vkAmbig
+		return nil, vkNoKey
 	}
 	return vkRef(f, path, i+1)
 }
@@ -744,6 +747,12 @@ func TestVerifKeys(t *testing.T) {
 			out.nontrivial(h)
 			if res.err == nil {
 				report(idx, "C11.error-expected", "", fmt.Sprintf("got keys=%q without error, reference says the path must be an error", res.keys), desc)
+			}
+		case vkNoKey:
+			out.hit("C11.bytes-field-never-a-key")
+			out.nontrivial(h)
+			if res.err == nil && len(res.keys) > 0 {
+				report(idx, "C11.error-expected", "bytes", fmt.Sprintf("got keys=%q from a path through a bytes field: a bytes value is not a string value, the result must be an error (or no keys)", res.keys), desc)
 			}
 		default:
 			out.hit("C11.ambiguous-shape-total")
